@@ -318,3 +318,56 @@ def run_tx(grams, script, calls):
         res.append(("call",) + evs(k))
     res.append(("final", state()))
     return res
+
+
+# --------------------------------------------------------------------------
+# reference parser (oracle side): what a well-formed gram is, independent of the code under test
+
+def ref_parse(d):
+    """dict(code, zeroth, signed, num, mid, vid, sig, fore, body) for a datagram that has the layout of a memo gram, else None"""
+    d = bytes(d)
+    if not d:
+        return None
+    sextet = d[0] >> 2
+    try:
+        if sextet == 0o30:
+            curt = False
+            code = d[:4].decode("ascii")
+        elif sextet == 0o33 and len(d) >= 3:
+            curt = True
+            code = base64.urlsafe_b64encode(d[:3]).decode()
+        else:
+            return None
+        if code not in RSIZES:
+            return None
+        bz, nz, mz, vz, az = [3 * x // 4 if curt else x for x in RSIZES[code]]
+        oz = bz + nz + mz + vz + az
+        if len(d) < oz:
+            return None
+        conv = (lambda b: base64.urlsafe_b64encode(b).decode()) if curt else (lambda b: b.decode("ascii"))
+        if curt:
+            num = int.from_bytes(d[bz:bz + nz], "big")
+        else:
+            t = d[bz:bz + nz].decode("ascii")
+            if any(c not in B64 for c in t):
+                return None
+            num = 0
+            for c in t:
+                num = num * 64 + B64.index(c)
+        mid = conv(d[bz + nz:bz + nz + mz])
+        vid = conv(d[bz + nz + mz:bz + nz + mz + vz])
+        sig = conv(d[len(d) - az:]) if az else ""
+        fore = d[:len(d) - az] if az else d
+        return dict(code=code, zeroth=code in ZCODES, signed=code in SIGNED, num=num, mid=mid, vid=vid, sig=sig, fore=fore, body=fore[oz - az:])
+    except (UnicodeDecodeError, ValueError):
+        return None
+
+
+def can_assemble(text, parts, i=0, pos=0):
+    """can `text` be written as one option from parts[0], then one from parts[1], …?"""
+    if i == len(parts):
+        return pos == len(text)
+    for b in parts[i]:
+        if text.startswith(b, pos) and can_assemble(text, parts, i + 1, pos + len(b)):
+            return True
+    return False
